@@ -12,9 +12,12 @@ Tie B1 (every run): the exponents / prefactors / weights traced from the current
 Run.GenWaveK via the shared wave recipe; lens phases and impulse responses: Run.GenC04 via tracer/recipes/c04.py) are proved,
 for all real dx, lambda, k, z, f, to be those model quantities on the library's sample grids (coq/tie/C04_TieA.v, C04_TieB.v),
 incl. "lens phase + chirp of distance f = 0 at every pixel" and "quadrature weight dx^2 exactly once in both APIs".
-Tie B2 (every run): the closed-form predictions the oracles compare against are evaluated inside Coq (q_predict, proved equal
-to the real model) on the exact rational inputs of the run.
-Direct oracles: Gaussian beams and lens x aperture through every method x both APIs inside the common validity window.
+coq/tie/C04_TieD.v: the band-limit masks of both APIs are the published cut-off |f| < 1/(lam sqrt((2z/L)^2+1)), each axis with its
+own extent (C04_bl_limit_sampling gives the cut-off its meaning), and mask x exp(i phase) recomposes the traced kernel pixel.
+Model <-> oracle-reference correspondence (every run; not a tie to the code): the closed-form predictions the oracles compare against
+are evaluated inside Coq (q_predict, proved equal to the real model) on the exact rational inputs of the run.
+Direct oracles: Gaussian beams and lens x aperture through every method x both APIs inside the common validity window (even, odd and
+non-square grids); band-limit mask and pass-band energy of both APIs against the published cut-off.
 PARTIAL: discretisation error is only observed; the Fresnel-pair Fourier integral (impulse response <-> transfer function) and
 the Fourier synthesis / uniqueness step (the solution of the paraxial equation with Gaussian data IS the superposition of the
 propagated plane waves) are cited.
@@ -26,7 +29,7 @@ from harness import wave_common as W
 from harness.common import qlit
 
 PROPS = ['C04_sqrt_paraxial', 'C04_as_tf_close', 'C04_as_tf_on_grid', 'C04_as_dispersion', 'C04_tf_dispersion',
-         'C04_forward_direction', 'C04_on_axis_wavenumber', 'C04_ir_tf_pair_coeff', 'C04_ir_tf_pair_prefactor', 'C04_ir_tf_signs',
+         'C04_forward_direction', 'C04_on_axis_wavenumber', 'C04_bl_limit_sampling', 'C04_bl_limit_bounds', 'C04_bl_limit_even', 'C04_bl_pass_true', 'C04_ir_tf_pair_coeff', 'C04_ir_tf_pair_prefactor', 'C04_ir_tf_signs',
          'C04_ir_sample_modulus', 'C04_gauss_q', 'C04_gauss_q_waist', 'C04_gauss_steps_compose', 'C04_gauss_inverse_width',
          'C04_gauss_width', 'C04_gauss_amplitude', 'C04_gauss_curv_sign', 'C04_gauss_radius', 'C04_gauss_even_odd',
          'C04_gauss_conj_overlap', 'C04_gauss_solves_paraxial', 'C04_gauss_initial', 'C04_gauss_field_parts',
@@ -246,7 +249,46 @@ def oracle_lens(inp):
     return [('thin_lens_phase', e <= tol, 'exp(-i k r^2 / 2f) within %.3g' % tol, e)]
 
 
-ORACLES = {'gauss': oracle_gauss, 'agree': oracle_agree, 'focus': oracle_focus, 'lens': oracle_lens}
+# ---------------------------------------------------------------- oracle 5: the band limit of the band-limited angular spectrum
+def published_mask(api, shape, dx, lam, z):
+    """|f| < 1 / (lam sqrt((2 z / L)^2 + 1)) on each axis with the extent L = n dx of that axis, on the library's frequency grid;
+    also returns the smallest relative distance of a sample from the cut-off (knife-edge guard)"""
+    h, w = shape
+    if api == 'torch':
+        fr = np.linspace(-1 / (2 * dx) + 0.5 / (2 * dx * h), 1 / (2 * dx) - 0.5 / (2 * dx * h), h)
+        fc = np.linspace(-1 / (2 * dx) + 0.5 / (2 * dx * w), 1 / (2 * dx) - 0.5 / (2 * dx * w), w)
+    else:
+        fr = np.linspace(-1 / (2 * dx), 1 / (2 * dx), h); fc = np.linspace(-1 / (2 * dx), 1 / (2 * dx), w)
+    lr = 1 / math.sqrt((2 * z / (dx * h)) ** 2 + 1) / lam; lc = 1 / math.sqrt((2 * z / (dx * w)) ** 2 + 1) / lam
+    edge = min(float(np.abs(np.abs(fr) / lr - 1).min()), float(np.abs(np.abs(fc) / lc - 1).min()))
+    return (np.abs(fr)[:, None] < lr) & (np.abs(fc)[None, :] < lc), edge
+
+
+def oracle_bandlimit(inp):
+    """the band-limited method passes exactly the published band (each axis with its own extent) and nothing else"""
+    shape, dx, lam, z = tuple(inp['shape']), inp['dx'], inp['lam'], inp['z']
+    k = 2 * math.pi / lam
+    M, edge = published_mask(inp['api'], shape, dx, lam, z)
+    if inp['api'] == 'torch':
+        H = W.to_np(W.lw().get_band_limited_angular_spectrum_kernel(shape[0], shape[1], dx=dx, wavelength=lam, distance=z))
+    else:
+        d = np.zeros(shape, dtype=complex); d[0, 0] = 1.0           # flat spectrum: the output spectrum is the kernel
+        H = np.fft.fftshift(np.fft.fft2(W.n_prop(d, 'Bandlimited Angular Spectrum', z, dx, lam)))
+    got = np.abs(H) > 0.5
+    res = [('band_limit_mask', got.shape == M.shape and bool(np.all(got == M)) and bool(np.all(np.abs(np.abs(H) - got) <= 1e-4)),
+            '0/1 mask |f| < 1/(lam sqrt((2z/L)^2+1)) per axis: %d of %d samples pass' % (int(M.sum()), M.size),
+            {'passing': int(got.sum()), 'mismatching_samples': int((got != M).sum()) if got.shape == M.shape else None})]
+    rng = np.random.default_rng(inp['fseed'])
+    u = W.cfield(rng, shape)
+    out = run_method(inp['api'], 'Bandlimited Angular Spectrum', u, k, z, dx, lam, False)
+    U = np.fft.fftshift(np.fft.fft2(u))
+    want = float((np.abs(U) ** 2 * M).sum() / (np.abs(U) ** 2).sum())
+    gotf = float((np.abs(out) ** 2).sum() / (np.abs(u) ** 2).sum())
+    res.append(('passband_energy', abs(gotf - want) <= 2e-3 * max(want, 1e-3) + 1e-6, 'fraction of the energy inside the published band = %.6g' % want, gotf))
+    return res
+
+
+ORACLES = {'gauss': oracle_gauss, 'agree': oracle_agree, 'focus': oracle_focus, 'lens': oracle_lens, 'bandlimit': oracle_bandlimit}
 
 
 def apply_oracle(ctx, name, inp):
@@ -259,6 +301,7 @@ def apply_oracle(ctx, name, inp):
         if not ok:
             bad += 1
             if name == 'lens': fn = LENS_FN[inp['api']]
+            elif name == 'bandlimit': fn = '%s[Bandlimited Angular Spectrum]' % FN[inp['api']]
             elif name == 'agree': fn = 'propagate_beam[all methods, both APIs]'
             else: fn = '%s[%s]' % (FN[inp['api']], inp['method'])
             ctx.violation(fn, clause, dict(inp, oracle=name), exp, obs)
@@ -321,7 +364,7 @@ def focus_case(rng, shape, kind, boundary=None):
 def gen_inputs(ctx, scale=1):
     rng = ctx.rng
     out = []
-    sizes = [(64, 64), (96, 96), (128, 128), (96, 128), (80, 64)] + ([(160, 160), (192, 192), (256, 256), (128, 192)] if ctx.thorough else [])
+    sizes = [(64, 64), (96, 96), (128, 128), (96, 128), (80, 64), (63, 63), (97, 81)] + ([(160, 160), (192, 192), (256, 256), (128, 192)] if ctx.thorough else [])
     bnds = [None, 'near', 'far', 'flat', 'curved', 'backward', 'pitch']
     i = 0
     # --- Gaussian beam through every method x both APIs, transform on the doubled grid (the torch default)
@@ -346,7 +389,7 @@ def gen_inputs(ctx, scale=1):
     # --- the library's own lens x aperture
     j = 0
     for rep in range(scale * (8 if ctx.thorough else 2)):
-        for shape in sizes[:3] + ([(160, 160), (256, 256)] if ctx.thorough else []):
+        for shape in sizes[:3] + [(97, 97)] + ([(160, 160), (256, 256)] if ctx.thorough else []):
             for kind in ('gauss', 'circ', 'square'):
                 if kind != 'gauss' and min(shape) < 96: continue      # a hard aperture that focuses sharply (Fresnel number >= 5.5) needs the larger grids
                 b = [None, 'near', 'far', 'negative', None][j % 5]; j += 1
@@ -354,6 +397,21 @@ def gen_inputs(ctx, scale=1):
                 for api, m in combos():
                     # hard-edged apertures: the plane -f holds a field twice the aperture's size, keep it inside the doubled grid
                     out.append(('focus', dict(fc, api=api, method=m, pad=bool(j % 2) or kind != 'gauss' or m in T_IR + N_IR)))
+    # --- band limit: cut-off at 0.15 .. 0.95 of the Nyquist frequency of the longer axis, both signs of z, square / non-square / odd
+    #     grids; plus z = 0 (everything passes) and a very long distance (only the lowest frequencies pass)
+    bshapes = [(32, 32), (24, 48), (48, 24), (33, 40), (17, 64), (64, 64)] + ([(128, 96), (75, 75)] if ctx.thorough else [])
+    for rep in range(scale * (4 if ctx.thorough else 2)):
+        for bi, shape in enumerate(bshapes):
+            for api in ('torch', 'numpy'):
+                for _ in range(50):
+                    lam = rng.uniform(0.4, 0.7); dx = lam * rng.uniform(0.75, 1.6)
+                    rho = rng.uniform(0.15, 0.95)
+                    L_ = max(shape) * dx
+                    z = L_ / 2 * math.sqrt(max(0.0, (2 * dx / (rho * lam)) ** 2 - 1)) * rng.choice([-1, 1])
+                    if rep == 1 and bi == 0: z = 0.0
+                    if rep == 1 and bi == 1: z = 400.0 * L_
+                    if published_mask(api, shape, dx, lam, z)[1] >= 1e-4: break          # no sample on the knife edge of the cut-off
+                out.append(('bandlimit', {'api': api, 'shape': list(shape), 'dx': dx, 'lam': lam, 'z': z, 'fseed': rng.randrange(10 ** 6)}))
     # --- the lens functions themselves (square, non-square, negative focal length)
     for (nx, ny) in [(8, 8), (7, 9), (64, 64), (33, 20), (128, 96)]:
         for api in ('torch', 'numpy'):
@@ -371,13 +429,14 @@ def trace_and_tie(ctx):
     jobs = [lambda: ctx.theorems('OdakV.C04.Props', PROPS)]
     # shared wave recipe: transfer-function kernels per pixel, operator structure of every propagation function
     try:
-        g, _ = wrecipe.kernels()
+        g = recipe.kernels()                 # this property's own trace of the per-pixel transfer functions (robust to how the band-limited kernel is assembled)
         defs, disp = wrecipe.pipelines()
         ctx.programs += len(g.defs) + len(defs)
         ctx.obligation('translator:trace-wave(%d kernel definitions, %d pipeline terms)' % (len(g.defs), len(defs)), True)
         bad = [(f, d) for f, d in disp.items() if not (d['propagation_type'] == wrecipe.TYPE_OF[f] and d['distance_is_z'] and d['wavelength_is_lam'] and d['dx_is_dx'] and d['nu_nv'] == [4, 6])]
         ctx.obligation("translator:kernel-request-arguments(each method asks for its own kernel type with the caller's dx, wavelength, distance and the field's shape)", not bad, str(bad))
-        jobs.append(lambda: ctx.compile_tie('GenWaveK', g.text(), [W.K_TIES, ['C04_TieA']]))
+        # only the shared kernel ties this property builds on (evenness / composition of the band-limited kernel is C02's business)
+        jobs.append(lambda: ctx.compile_tie('GenWaveK', g.text(), [['Wave_TieK_as', 'Wave_TieK_tf', 'Wave_TieK_nas', 'Wave_TieK_ntf'], ['C04_TieA']]))
         jobs.append(lambda: ctx.compile_tie('GenWaveP', wrecipe.pipes_text(defs), [['Wave_TieP']]))
     except Exception as e:
         g = None
@@ -404,6 +463,14 @@ def trace_and_tie(ctx):
     labels = ['Print Assumptions', 'GenWaveK + kernel ties + C04_TieA', 'GenWaveP + Wave_TieP', 'GenC04(P) + C04_TieB/C']
     with ThreadPoolExecutor(max_workers=len(jobs)) as ex:
         for fu in [ex.submit(timed, j, labels[i] if len(jobs) == 4 else str(i)) for i, j in enumerate(jobs)]: fu.result()
+    # band-limit masks of both APIs (needs the compiled Run.GenWaveK and Run.GenC04)
+    import os
+    from harness.common import COQ
+    if g is not None and g2 is not None and all(os.path.exists(os.path.join(ctx.build, f + '.vo')) for f in ('GenWaveK', 'GenC04')):
+        ok, out = ctx.coqc('C04_TieD', open(os.path.join(COQ, 'tie', 'C04_TieD.v')).read())
+        ctx.obligation('tie:C04_TieD', ok, out[-2500:])
+    else:
+        ctx.obligation('tie:C04_TieD', False, 'not attempted: traced definitions unavailable')
     return g, g2
 
 
@@ -442,6 +509,12 @@ def self_check(ctx, g2):
         envn = dict(env, k=k)
         # unit sample where the function's fftshift puts it at the origin: the output is the sampled impulse response itself
         cmp('numpy impulse response', grid('nir', envn, None), np.asarray(N.impulse_response_fresnel(u, k, z, dx, lam)), 1e-9)
+        # traced numpy band-limit mask = the mask inside the real function (flat spectrum in, kernel out)
+        zb = z * 0.3
+        d0 = np.zeros((NX, NY), dtype=complex); d0[0, 0] = 1.0
+        Hb = np.fft.fftshift(np.fft.fft2(N.band_limited_angular_spectrum(d0, k, zb, dx, lam)))
+        mb = np.array([[1.0 if g2.evalf('nblm_%d_%d' % (i, j), dict(env, z=zb)) else 0.0 for j in range(NY)] for i in range(NX)])
+        cmp('numpy band-limit mask', mb, (np.abs(Hb) > 0.5).astype(float), 1e-9)
     ctx.traces += n
     ctx.obligation('translator-self-check:c04(traced lens / impulse-response samples = the real functions on %d values)' % n, bad == 0 and n > 0, '%d mismatching arrays' % bad)
 
@@ -482,16 +555,17 @@ def correspondence(ctx, cases):
         ctx.traces += 1
         if not ok:
             bad += 1; ctx.log('closed-form mismatch', key, [float(a) for a in q], p)
-    ctx.obligation('correspondence:closed-form(%d input tuples: Coq q_predict = oracle reference within 1e-9)' % len(metas), bad == 0, '%d disagreements' % bad)
+    ctx.obligation('model-vs-oracle-reference:closed-form(%d input tuples: Coq q_predict = the float reference of the oracles within 1e-9)' % len(metas), bad == 0, '%d disagreements' % bad)
 
 
 # ---------------------------------------------------------------- entry points
 def run(ctx):
     ctx.rule = ('Gaussian waists (>= 5 px, >= 3.75 lambda, beam within window/7) propagated by zc <= |z| <= 2 zc (zc = N dx^2/lambda of the bare grid; '
                 'transform on the doubled grid as in the torch default) with 0.35 <= |z|/zR <= 1.5, both signs of z, pitch >= lambda/sqrt2 incl. its edge, '
-                '|k z| <= 4e3 (float32 phases), square / non-square grids; every method x both APIs, sub-pixel sampled impulse responses; transfer-function '
+                '|k z| <= 4e3 (float32 phases); every method x both APIs on even, odd (63x63, 97x81) and non-square grids, sub-pixel sampled impulse responses; transfer-function '
                 'methods additionally on bare even / odd / non-square grids at 0.15..2 zc; lens x (Gaussian, circular, square) aperture with zc <= |f| <= 2 zc, '
-                'both signs of f; non-trivial = every case; distinct by full input')
+                'both signs of f; band-limited kernels with the cut-off at 0.15..0.95 of Nyquist (plus z = 0 and a very long distance) on square / non-square / odd grids; '
+                'non-trivial = every case; distinct by full input')
     ctx.trusted += ['tracer (tracer/shim.py, opshim.py, recipes/wave.py, recipes/c04.py): shape-generic code traced at a 3x4 instance; validated by the numeric self-checks',
                     'cited, not proved: the Fresnel-pair Fourier integral FT[exp(i a r^2)](f) = (i pi / a) exp(-i pi^2 f^2 / a) (its coefficient algebra is proved) and '
                     'Fourier synthesis / uniqueness for the paraxial wave equation (proved: the closed form and every transfer-function-propagated plane wave solve it)',
